@@ -180,6 +180,12 @@ class Tracer(D.RealRun):
         self.settled = set()
         self.steps = []
         self.skipped = None
+        self.next_sid = 0
+        self.hook_sids = {}
+        self.tx_after_stop = None
+        self._stop_returned = False
+        self.sent_payloads = []
+        self.success_never_sent = None
         self.moved = {}  # step index -> sid whose own firing is observed last (see producer_drive.diff)
         self.model_meta = {}  # topic -> (err, parts|None) as the model's cache has it; absent = unknown
         self.pending_line = None
